@@ -80,6 +80,25 @@ def _snapshot(g, n, scale):
         ok = False
     if not ok:
         slo[0] = slo[0] + 999983                # reported through the scalar/bulk agreement clause
+    # arrays handed out for an explicit list of coalitions belong to the caller: whatever the caller writes into them must not reach the
+    # game (seed C17-f: a slice VIEW of the table returned for runs of consecutive ids).  The forms with coalitions=None are not touched:
+    # there the library hands out its own columns by design.
+    try:
+        start = rr.randrange(0, max(1, 2 ** n - 1))
+        run = [Coalition(c) for c in range(start, min(2 ** n, start + rr.randint(2, 4)))]
+        for getter in (g.get_lower_bounds, g.get_upper_bounds, g.get_known_values, g.are_values_known, g.get_intervals):
+            for lst in (run, cl_list):
+                arr = getter(list(lst))
+                if isinstance(arr, np.ndarray) and arr.size:
+                    arr[...] = True if arr.dtype == np.bool_ else 424242.0
+        if all(k[c.id] for c in run):
+            arr = g.get_values(run)
+            arr[...] = 424242.0
+        if ([int(b) for b in g.are_values_known()] != k or D.exact_arr(g.get_lower_bounds(), scale) != lo
+                or D.exact_arr(g.get_upper_bounds(), scale) != up):
+            slo[0] = slo[0] + 999983
+    except D.DriverError:
+        slo[0] = slo[0] + 999983
     kv = g.get_known_values()
     gkvs_ok = [0 if math.isnan(float(x)) else 1 for x in kv]
     gkvs = [0 if math.isnan(float(x)) else D.exact_int(x, scale) for x in kv]
@@ -123,6 +142,15 @@ def run_ops(n, scale, ops_source, rng, length):
                 else:
                     cs = rng.sample(range(NC), rng.randint(0 if nm != "set_values" else 1, NC))
                 op["cs"], op["xs"] = cs, [val() for _ in cs]
+                if nm in ("set_values", "set_known_values") and cs and rng.random() < 0.3:
+                    # write back what the game itself holds for these coalitions (their lower bounds): a run of consecutive ids half the time
+                    if rng.random() < 0.5 and NC >= 3:
+                        st = rng.randrange(0, NC - 1)
+                        cs = list(range(st, min(NC, st + rng.randint(2, 4))))
+                    op["cs"] = cs
+                    op["xs"] = [float(g.get_lower_bound(Coalition(c))) for c in cs]
+                    op["readback"] = 1
+                    op.pop("all", None)
             elif nm in ("set_lower_bound", "set_upper_bound"):
                 unknown = [c for c in range(NC) if not g.is_value_known(Coalition(c))]
                 if not unknown:
@@ -151,6 +179,10 @@ def run_ops(n, scale, ops_source, rng, length):
                 g.unreveal_value(Coalition(op["c"]))
             elif nm in ("set_values", "set_known_values", "set_lower_bounds", "set_upper_bounds"):
                 vals = np.array(op["xs"], dtype=np.float64)
+                if rng is not None and op.get("readback"):
+                    # the values written are the ones READ from this very game a moment ago (keep-only / snapshot-restore idioms): the
+                    # array returned by the getter is handed straight back to the setter
+                    vals = g.get_lower_bounds([Coalition(c) for c in op["cs"]])
                 if rng is not None and len(op["xs"]) and all(float(x).is_integer() for x in op["xs"]):
                     form = rng.random()
                     if form < 0.2:
